@@ -88,9 +88,10 @@ GROUPS = {
           ('bid128_lround.rs', 'bid128_lround'), ('bid128_llround.rs', 'bid128_llround')],
     # X: bid128_fdim over abstract bid128_quiet_greater and bid128_sub (GROUP_ABSTRACT: abstract for this group only, the
     # comparison predicate is translated concretely by group G); conditional theorem in Impl/ImplWrapProofs.v
-    'X': [('bid128_fdim.rs', 'bid128_fdim')],
+    'X': [('bid_internal.rs', '__mul_64x128_to_192'), ('bid_internal.rs', '__mul_64x128_to192'),
+          ('bid_internal.rs', '__mul_128x128_to_256'), ('bid128_compare.rs', 'bid128_quiet_greater'), ('bid128_fdim.rs', 'bid128_fdim')],
 }
-GROUP_ABSTRACT = {'X': {'bid128_sub': 'bid128_add.rs', 'bid128_quiet_greater': 'bid128_compare.rs'}}
+GROUP_ABSTRACT = {'X': {'bid128_sub': 'bid128_add.rs'}}
 # helper functions translated in addition to the routines of a group (after them, so that the text generated for the
 # routines does not move): the shared lemma files ImplMul0.v / ImplDpd.v, which the files about the pack routines import,
 # mention these three helpers
